@@ -44,6 +44,11 @@ func (w *world) now() time.Duration { return vrt.Now().Sub(w.epoch) }
 type fakeZK struct{ w *world }
 
 func (z *fakeZK) LocateResource(r zk.ResourceName) (string, error) {
+	// the lookup is initiated here (no scheduling point separates this from the caller's
+	// own "already closed?" check); it is answered after the yield
+	if vrt.Active() && z.w.closedAt >= 0 && z.w.quiet {
+		z.w.lateWork = append(z.w.lateWork, "zk lookup")
+	}
 	vrt.Yield("zk.Locate")
 	if !vrt.Active() {
 		vrt.HLock()
@@ -52,9 +57,6 @@ func (z *fakeZK) LocateResource(r zk.ResourceName) (string, error) {
 	z.w.cl.ZKAttempt()
 	if z.w.frozen || z.w.zkSilent {
 		vrt.Await("zk.silent", func() bool { return !z.w.frozen && !z.w.zkSilent })
-	}
-	if z.w.closedAt >= 0 && z.w.quiet {
-		z.w.lateWork = append(z.w.lateWork, "zk lookup")
 	}
 	return z.w.cl.ZKLocate(strings.Contains(string(r), "master"))
 }
